@@ -55,6 +55,98 @@ theorem itAt_inv (s : FStr) (pos : Nat) : itAt c s pos = itEnd c ∨ itAt c s po
   · exact Or.inl rfl
   · exact Or.inr (by omega)
 
+/-! ### iterator arithmetic: every move keeps the iterator at `end()` or inside the string -/
+
+theorem itInc_inv (hc : CfgOK c) {s : FStr} (hs : WF c s) {i : Nat} (h : i = itEnd c ∨ i < s.len) :
+    itInc c s i = itEnd c ∨ itInc c s i < s.len := by
+  have hW := hc.hW; have hl := hs.2.1
+  unfold itInc
+  split
+  · rename_i h1
+    unfold subW at h1
+    right
+    split at h1
+    · omega
+    · rcases h with h | h
+      · unfold itEnd at h; omega
+      · omega
+  · exact Or.inl rfl
+
+theorem itDec_inv {s : FStr} {i : Nat} (h : i = itEnd c ∨ i < s.len) :
+    itDec c i = itEnd c ∨ itDec c i < s.len := by
+  unfold itDec
+  split
+  · rename_i he; exact Or.inl he
+  · rename_i hne
+    split
+    · right; rcases h with h | h
+      · exact absurd h hne
+      · omega
+    · exact Or.inl rfl
+
+theorem itAdd_inv {s : FStr} {i : Nat} (v : Nat) (h : i = itEnd c ∨ i < s.len) :
+    itAdd c s i v = itEnd c ∨ itAdd c s i v < s.len := by
+  unfold itAdd
+  split
+  · rename_i he; exact Or.inl he
+  · split
+    · rename_i h2; exact Or.inr h2
+    · exact Or.inl rfl
+
+theorem itSub_inv {s : FStr} {i : Nat} (v : Nat) (h : i = itEnd c ∨ i < s.len) :
+    itSub c i v = itEnd c ∨ itSub c i v < s.len := by
+  unfold itSub
+  split
+  · rename_i he; exact Or.inl he
+  · rename_i hne
+    split
+    · right; rcases h with h | h
+      · exact absurd h hne
+      · omega
+    · exact Or.inl rfl
+
+theorem itMove_inv (hc : CfgOK c) {s : FStr} (hs : WF c s) (rev : Bool) {i : Nat} (h : i = itEnd c ∨ i < s.len)
+    (m : ItMove) : itMove c s rev i m = itEnd c ∨ itMove c s rev i m < s.len := by
+  cases m with
+  | inc =>
+    cases rev
+    · exact itInc_inv hc hs h
+    · exact itDec_inv (c := c) h
+  | dec =>
+    cases rev
+    · exact itDec_inv (c := c) h
+    · exact itInc_inv hc hs h
+  | add v =>
+    cases rev
+    · exact itAdd_inv v h
+    · exact itSub_inv v h
+  | sub v =>
+    cases rev
+    · exact itSub_inv v h
+    · exact itAdd_inv v h
+
+theorem itWalk_inv (hc : CfgOK c) {s : FStr} (hs : WF c s) (rev : Bool) (ms : List ItMove) :
+    ∀ {i : Nat}, (i = itEnd c ∨ i < s.len) → itWalk c s rev i ms = itEnd c ∨ itWalk c s rev i ms < s.len := by
+  induction ms with
+  | nil => intro i h; exact h
+  | cons m ms ih =>
+    intro i h
+    exact ih (itMove_inv hc hs rev h m)
+
+/-- `it[ idx]` stays inside the buffer under the caller contract of `operator[]` -/
+theorem itIndex_safe {s : FStr} (hs : WF c s) (rev : Bool) (i k : Nat)
+    (h : if rev then (k ≤ i → i - k ≤ c.L) else addW c i k ≤ c.L) : OkOrThrow (itIndex c s rev i k) := by
+  have hb := hs.1
+  unfold itIndex
+  cases rev
+  · simp only [Bool.false_eq_true, if_false] at h ⊢
+    exact Or.inl (okr_get1 (by omega))
+  · simp only [if_true] at h ⊢
+    split
+    · exact Or.inr ⟨_, rfl⟩
+    · rename_i hk
+      exact Or.inl (okr_get1 (by have := h (by omega); omega))
+
 theorem iterFwdLoop_safe {s : FStr} (hs : WF c s) (fuel : Nat) : ∀ (it : Nat) (acc : List Byte),
     (it = itEnd c ∨ it < s.len) → OkR (iterFwdLoop c s fuel it acc) := by
   induction fuel with
@@ -94,6 +186,7 @@ theorem iterRevLoop_safe {s : FStr} (hs : WF c s) (fuel : Nat) : ∀ (it : Nat) 
       unfold itDeref; rw [if_neg hne, hb]
       apply ih
       unfold ritInc
+      rw [if_neg hne]
       split
       · exact Or.inr (by omega)
       · exact Or.inl rfl
